@@ -307,7 +307,8 @@ def cmd_check(argv):
     level, variants = PROPS[prop]
     t0 = time.time()
     os.makedirs(BUILD, exist_ok=True)
-    os.makedirs(os.path.join(ROOT, "replays"), exist_ok=True)
+    replay_dir = os.environ.get("VERIF_REPLAY_DIR", os.path.join(ROOT, "replays"))
+    os.makedirs(replay_dir, exist_ok=True)
     os.makedirs(os.path.join(ROOT, "evidence"), exist_ok=True)
     rundir = new_rundir()
     log = open(os.path.join(rundir, "check.log"), "w")
@@ -382,7 +383,7 @@ def cmd_check(argv):
         valgrind_info = dict(runs=sum(r["runs"] for r in res), errors=sum(1 for r in res if r["rc"] == 77))
         for r in res:
             if r["rc"] == 77:
-                path = os.path.join(ROOT, "replays", "%s-%x-valgrind-%d.json" % (prop, seed, r["last"]))
+                path = os.path.join(replay_dir, "%s-%x-valgrind-%d.json" % (prop, seed, r["last"]))
                 rc, out = qsim_lines([vexe, "gen", "--prop", prop, "--tier", tier, "--seed", str(seed), "--index", str(r["last"])])
                 open(path, "w").write(out)
                 log.write(r["err"])
@@ -421,7 +422,7 @@ def cmd_check(argv):
             if shrunk >= MAX_SHRINK:
                 break
             shrunk += 1
-            out_path = os.path.join(ROOT, "replays", "%s-%x-%d.json" % (prop, seed, f["index"]))
+            out_path = os.path.join(replay_dir, "%s-%x-%d.json" % (prop, seed, f["index"]))
             rc, out = qsim_lines([exes[f["variant"]], "shrink", f["file"], "--out", out_path, "--scratch", scratch, "--max", "300" if tier == "quick" else "600"])
             line = [l for l in out.splitlines() if l.startswith("SHR")]
             if rc != 0 or not line or not line[0].startswith("SHRUNK"):
